@@ -211,6 +211,7 @@ def oracle(ctx: Ctx) -> OracleResult:
     if n is None and ctx.tier != 'thorough':
         rng.shuffle(combos)
         combos = combos[:120]
+    combos = key_stretch_combos(rng, 2 if n is not None else 8) + combos
     sessions = pair.run(_run_sessions(combos, ctx.subrng('osessions'), ctx.tier == 'thorough'), timeout=3000)
     for sres in sessions:
         combo = sres['combo']
@@ -250,6 +251,23 @@ def oracle(ctx: Ctx) -> OracleResult:
     res.rule = ('one real session per (cipher, mac, compression, kex) combination, both roles, write sizes around '
                 'block boundaries and >32k, seeded 1..40-byte re-chunking of the byte stream; distinct = combinations')
     return res
+
+
+def key_stretch_combos(rng: random.Random, k: int) -> List[Tuple[str, str, str, str]]:
+    """Combinations whose derived keys need MORE than two digest blocks (RFC 4253 7.2 expansion K3, K4, ...):
+    a short-digest key exchange with a 64-byte cipher or MAC key."""
+    _encs, _macs, _cmps, kexs = ts.all_algs()
+    short = [x for x in kexs if refpeer.kex_hash(x) == 'sha1' and 'gex' not in x and 'rsa' not in x
+             and ('group14' in x or 'group1-' in x)] or [x for x in kexs if refpeer.kex_hash(x) == 'sha1']
+    longkey = [('chacha20-poly1305@openssh.com', ''), ('aes128-ctr', 'hmac-sha2-512'),
+               ('aes256-ctr', 'hmac-sha2-512-etm@openssh.com')]
+    out = []
+    for i in range(k):
+        if not short:
+            break
+        e, m = longkey[i % len(longkey)]
+        out.append((e, m, 'none', short[rng.randrange(len(short))]))
+    return out
 
 
 def _first_diff(a: List[bytes], b: List[bytes]) -> int:
